@@ -603,6 +603,20 @@ func (env *Env) evalCall(t *ECall) Value {
 			}
 		}
 		env.fail("arg(): only inside an assertion anchored at a call, with a literal index")
+	case "isfn":
+		// isfn(v, "name"): v is the function or bound method called name (decided statically;
+		// a function value of unknown origin is not known to be any named function)
+		v := env.eval(t.Args[0])
+		lit, ok := t.Args[1].(*EStr)
+		if !ok {
+			env.fail("isfn(): the second argument is a string literal")
+		}
+		if v.Clo != nil && v.Clo.Fn != nil {
+			if strings.TrimSuffix(v.Clo.Fn.Name(), "$bound") == lit.V {
+				return env.boolv(tTrue)
+			}
+		}
+		return env.boolv(tFalse)
 	case "calls":
 		// calls(f): how many calls named f the function's own body has executed so far
 		k, ok := x.callCounters[exprString(t.Args[0])]
